@@ -114,6 +114,20 @@ def gen(rng, tier):
     for _ in range(n_mut // 5):
         g = annotate(rng, random_grammar(rng, p_empty=0.2), p_prod=0.6, p_term=0.4, p_rule=0.3)
         jobs.append(("annotated", g.render(), rng.choice("DG"), rng.choice("FA"), settings_vec(rng)))
+    # the front-end families of C09 (repetition sugar in every order and combination, separators, named/bool assignments,
+    # meta-data, inline strings, name clashes, Layout rules, broken specs) through the WHOLE compiler, and token-level
+    # mutations of them
+    try:
+        import c09
+        for c in c09.generate(rng, 400 if tier == "quick" else 5000):
+            text = getattr(c, "text", None)
+            if not text or len(text) > 3000:
+                continue
+            jobs.append(("frontend", text, rng.choice("DG"), rng.choice("FA"), settings_vec(rng)))
+            if rng.random() < 0.3:
+                jobs.append(("frontend-mutation", mutate_text(rng, text), rng.choice("DG"), rng.choice("FA"), settings_vec(rng)))
+    except Exception as e:      # the C09 machinery is optional for C16
+        jobs.append(("broken", "S: A;\nterminals\nA: 'a';\n", "G", "F", ["LR", "-"] + ["-"] * 8))
     return jobs
 
 
@@ -188,7 +202,8 @@ def check(rep, jobs, findings, proofs_ok):
         rep.known_finding(key, what)
     rep.cov["rule"] = ("every .rustemo file of the repository + a list of hand-written broken/odd texts (every construct the grammar of "
                        "grammars accepts, misuse of STOP/EMPTY/AUG, huge integers, duplicates, undefined symbols, bad regexes, keywords) + "
-                       "token-level and byte-level mutations of those and of random annotated BNF grammars x {LR,GLR} x table types x "
+                       "token-level and byte-level mutations of those and of random annotated BNF grammars + the front-end families of C09 (sugar in "
+                       "every order, separators, assignments, meta-data, inline strings, name clashes, Layout) and their mutations x {LR,GLR} x table types x "
                        "prefer-shift settings x {default, generic builder} x {functions, arrays}; the real Settings::process_grammar under "
                        "catch_unwind + watchdog; distinct = (text, settings)")
     rep.sample({"text": jobs[len(jobs) // 2][1][:200], "settings": " ".join(jobs[len(jobs) // 2][4])})
